@@ -44,6 +44,7 @@ func TestVerif_C04(t *testing.T) {
 			markers = append(markers, vMarkerForms(m)...)
 		}
 		e.projector().Markers = markers
+		e.projector().GlobalNonces = true // nonce freshness across all scenarios of this process
 		src := filepath.Join(e.base, mDir)
 		_ = os.MkdirAll(filepath.Join(src, "sub-"+mName), 0o755)
 		// highly compressible content made of the marker, short content, content inside random data
